@@ -35,7 +35,7 @@ fn refs() -> Vec<Piece> {
 }
 
 /// templates: `#` marks a reference slot
-const TEMPLATES: [&str; 44] = [
+const TEMPLATES: [&str; 47] = [
     "#", "#+#", "SUM(#:#)", "LOG10(#)", "ATAN2(#,1)", "Sheet2!#", "'My Sheet'!#", "Q1!#", "'\u{dc}bersicht'!#", "\"A1\"&#",
     "\"say \"\"B2\"\" \"&#", "\"\u{e9}\u{20ac}\"&#", "1E5+#", "2.5E-3*#", "rate_1*#", "_A1+#", "IF(#>0,#,\"B2\")", "#%", "TRUE+#", "#:#",
     "'it''s A1'!#", "Data.A1+#", "A1B2C+#", "LOG10(#)+LOG(#,10)", "-#^2", "#&\" C3 \"&#", "DEC2HEX(#)", "'Q1 2024'!#:#", "1.5E+10/#", "SUM(Sheet2!#,#)",
@@ -46,6 +46,8 @@ const TEMPLATES: [&str; 44] = [
     "Gr\u{f6}\u{df}e1*#", "\u{426}\u{435}\u{43d}\u{430}Q3+#", "Ann\u{e9}e2-#",
     // error constants (\u{1} stands for their '#', which is the slot marker here): the ones without a closing ! or ? too
     "IF(#=0,\u{1}N/A,#)", "IFERROR(#/\u{1}DIV/0!,#)", "\u{1}REF!+#", "IF(ISNA(\u{1}N/A),\u{1}GETTING_DATA,#)",
+    // a number in scientific notation as the last token; a string literal whose last character is a backslash
+    "#*1E5", "#+2.5e3", "#&\"C:\\out\\\"&#",
 ];
 
 fn instantiate(t: &'static str, picks: &[Piece]) -> Vec<Piece> {
@@ -229,7 +231,7 @@ fn run_case(rep: &Report, ch: &mut Chooser, ms: &[Vec<Piece>], local: &mut Vec<(
 
 pub fn check(rep: &Report) {
     let t = crate::thorough(&rep.tier);
-    rep.rule("(a) master formulas = 44 templates (error constants incl. #N/A and #GETTING_DATA, apostrophes inside string literals and double quotes inside quoted sheet names, names that only look like references, defined names with non-ASCII letters ending like a cell reference, plain refs, areas, functions whose names end in digits, sheet-qualified and quoted-sheet refs incl. a sheet named Q1 and non-ASCII / apostrophe names, strings containing cell-like text and doubled quotes, numbers with exponents, defined names with digits, percent, booleans) x 16 references (4 absolute/relative combinations x A1, Z10, AA5, ZZ100) in every slot, translated by every offset of a window (quick 7 offsets, thorough 52) by the real translator vs the reference shift; (b) groups of shape {3x1,1x3,2x2,2x3,1x1,4x1,3x2} x master at {A1, D6, Y1} x every master formula x master not the top-left cell of the declared range (first 1-2 cells plain) x second group x swapped si order x a non-member cell inside the range x prefix x implicit cell refs, all choice vectors with <= 2 (thorough 3) deviations, through worksheet_formula; non-trivial = non-zero offset / non-default choice");
+    rep.rule("(a) master formulas = 47 templates (error constants incl. #N/A and #GETTING_DATA, apostrophes inside string literals and double quotes inside quoted sheet names, names that only look like references, defined names with non-ASCII letters ending like a cell reference, plain refs, areas, functions whose names end in digits, sheet-qualified and quoted-sheet refs incl. a sheet named Q1 and non-ASCII / apostrophe names, strings containing cell-like text and doubled quotes, numbers with exponents, defined names with digits, percent, booleans) x 16 references (4 absolute/relative combinations x A1, Z10, AA5, ZZ100) in every slot, translated by every offset of a window (quick 7 offsets, thorough 52) by the real translator vs the reference shift; (b) groups of shape {3x1,1x3,2x2,2x3,1x1,4x1,3x2} x master at {A1, D6, Y1} x every master formula x master not the top-left cell of the declared range (first 1-2 cells plain) x second group x swapped si order x a non-member cell inside the range x prefix x implicit cell refs, all choice vectors with <= 2 (thorough 3) deviations, through worksheet_formula; non-trivial = non-zero offset / non-default choice");
     rep.assume("offsets never move a reference outside the sheet; names that look exactly like a cell reference are not used as defined names");
     hook_sweep(rep, t);
     let ms = masters();
